@@ -28,7 +28,7 @@ def bounds():
 def gen_script(r, tier, idx):
     from vlib.man import Phase
 
-    kind = r.choice(["reset-in-connect", "reset-in-connect", "blackout-connected", "lossy", "rferr", "blackout-at-start", "mixed", "reset-anytime", "set-info", "interface-down", "rferr-long", "not-found-then-reset", "reset-at-step", "reset-at-step", "blackout-near-tick", "many-resets", "lossy-connect-then-long-blackout"])
+    kind = r.choice(["reset-in-connect", "reset-in-connect", "blackout-connected", "lossy", "rferr", "blackout-at-start", "mixed", "reset-anytime", "set-info", "interface-down", "rferr-long", "not-found-then-reset", "reset-at-step", "reset-at-step", "blackout-near-tick", "many-resets", "lossy-connect-then-long-blackout", "active-blackout", "active-blackout", "slow-lossy-first-connect"])
     phases, actions = [], []
     if kind == "reset-in-connect":
         # a reset at a 100 ms step of the first connection attempt
@@ -54,6 +54,15 @@ def gen_script(r, tier, idx):
         # (the lossy connection is a RE-connection, made while the previous facade's active profile -
         # 10 s not-responding timeout - is still installed)
         phases = [Phase("healthy", 20), Phase("blackout", r.choice([25, 40])), Phase("lossy", r.choice([40, 70]), r.choice([0.55, 0.7])), Phase("healthy", r.choice([20, 40])), Phase("blackout", 560)]
+    elif kind == "active-blackout":
+        # active timing profile (pump running): the missed pings themselves report the outage, long
+        # before any request fails; the spa changes while unreachable
+        phases = [Phase("healthy", r.choice([8, 20, 33])), Phase("blackout", r.choice([25, 60, 150]))]
+    elif kind == "slow-lossy-first-connect":
+        # the FIRST connection is made over a link so bad that no ping is answered for longer than the
+        # not-responding timeout while still connecting; it completes; later the spa goes away
+        # (the slow phase ends the moment CONNECTED is reached; no ping has been answered by then)
+        phases = [Phase("slowconnect", 400, r.choice([7, 8, 9])), Phase("blackout", 560)]
     elif kind == "blackout-near-tick":
         # active timing profile (forced pump-running snapshot): the outage begins just before the
         # periodic refresh / facade update, whose retrying requests then hold the protocol lock
@@ -105,7 +114,7 @@ def scenario(sh: Shard, seed, idx, tier):
     B_up, B_down = bounds()
     label = f"{seed}:{idx}:{kind}"
     snapshot = r.choice(["default.snapshot", "inYT-Pump1Hi-2020-12-13 11_19_35.snapshot", "inYT-all off-2020-10-23 18_00_45.snapshot"])
-    if kind in ("blackout-near-tick", "lossy-connect-then-long-blackout"):
+    if kind in ("blackout-near-tick", "lossy-connect-then-long-blackout", "active-blackout"):
         snapshot = "inYT-Pump1Hi-2020-12-13 11_19_35.snapshot"
     mw = ManWorld(r, regime, suspend=suspend, snapshot=snapshot, max_iter=20_000_000, wall_cap=900)
     out = {}
@@ -164,12 +173,25 @@ def scenario(sh: Shard, seed, idx, tier):
                         mw.sim.set_block(bytes(b))
                     end = mw.w.now + ph.dur
                     while mw.w.now < end:
+                        if ph.mode == "slowconnect" and man._spa_state.name == "CONNECTED":
+                            sh.count("connections_completed_without_any_ping_answered")
+                            sh.maximum("slowest_first_connection_s", round(mw.w.now - t0, 1))
+                            break
                         while pending and pending[0][0] <= mw.w.now - t0:
                             _, act = pending.pop(0)
                             users.append(asyncio.ensure_future(man.async_reset() if act == "reset" else man.async_set_spa_info(mw.kw["spa_address"], mw.kw["spa_identifier"], mw.kw["spa_name"])))
                             out.setdefault("user_action_times", []).append(mw.w.now)
                             sh.count("user_actions")
                         await asyncio.sleep(0.05)
+                    if ph.mode in ("blackout", "down") and man._spa_state.name != "CONNECTED" and r.random() < 0.7:
+                        # the outage has been noticed (the state left CONNECTED) and the spa changes a
+                        # setting OUTSIDE the window the periodic refresh re-reads (a keypad user
+                        # changes the set point): only a complete new connection can show it
+                        b = bytearray(mw.sim.block)
+                        pos_ = r.choice([15, 16, 40, 100, 200])
+                        b[pos_] = (b[pos_] + r.randrange(1, 255)) % 256
+                        mw.sim.set_block(bytes(b))
+                        sh.count("config_region_changes_while_reported_unreachable")
                 mw.set_phase(Phase("healthy", 0))
                 H = mw.w.now
                 out["H"] = H
@@ -321,10 +343,11 @@ def main(tier, seed):
     run.extra["bounds_virtual_seconds"] = {"B_up": up, "B_down": down}
     run.need(run.counters.get("recoveries", 0) > 60, "too few recoveries observed")
     run.need(run.counters.get("long_outages_from_connected", 0) >= 1 or tier == "quick", "no long outage from CONNECTED")
-    for k in ("reset-in-connect", "blackout-connected", "lossy", "rferr", "blackout-at-start", "mixed", "interface-down", "rferr-long", "not-found-then-reset", "reset-at-step", "blackout-near-tick", "many-resets", "lossy-connect-then-long-blackout"):
+    for k in ("reset-in-connect", "blackout-connected", "lossy", "rferr", "blackout-at-start", "mixed", "interface-down", "rferr-long", "not-found-then-reset", "reset-at-step", "blackout-near-tick", "many-resets", "lossy-connect-then-long-blackout", "active-blackout", "slow-lossy-first-connect"):
         run.need(k in run.sets.get("script_kinds", set()), f"script kind {k} not exercised")
+    run.need(run.counters.get("config_region_changes_while_reported_unreachable", 0) >= 10, "the spa never changed a setting outside the refresh window while it was reported unreachable")
     return run.finish(
-        rule="fault scripts (reset / set-spa-info at a 100 ms step of the first connection attempt - thorough: every step 0..5.9 s -, blackout while connected from 0.5 to 400 s, lossy 20-90 %, RF-error periods (up to 3600 s: past the too-many-RF-errors escalation), interface-down periods (every send fails with an OS error reported through error_received), blackout at start, mixed phase sequences with resets) followed by a healthy network, silent spa-side changes during outages, handlers none/tick/seconds, regimes B/J; one evaluation = one script; distinct = distinct scripts",
+        rule="fault scripts (reset / set-spa-info at a 100 ms step of the first connection attempt - thorough: every step 0..5.9 s -, blackout while connected from 0.5 to 400 s, lossy 20-90 %, RF-error periods (up to 3600 s: past the too-many-RF-errors escalation), interface-down periods (every send fails with an OS error reported through error_received), blackout at start, mixed phase sequences with resets) followed by a healthy network, silent spa-side changes during outages (inside the refresh window; outside it once the outage has been reported), outages under the active profile, a first connection made over a link too bad for any ping to be answered, handlers none/tick/seconds, regimes B/J; one evaluation = one script; distinct = distinct scripts",
         assumptions=["'eventually' is restated as bounded progress: B_up = 2 x (ping period + 3 x (timeout+pause) + 2 x discovery timeout + 10 s), B_down = 2 x (not-responding timeout + 2 x (ping period + timeout + pause)), maxima over both configuration tables, in virtual seconds", "endpoint-creation failures are outside the statement's quantifier"],
     )
 
